@@ -197,6 +197,7 @@ type scen struct {
 	Kind  string        `json:"kind"` // S1 S2 S3 S4
 	L     time.Duration `json:"lease"`
 	K     int           `json:"k,omitempty"`         // S2: which renewal fails
+	Ks    []int         `json:"ks,omitempty"`        // S2: several storage calls of the renewal chain fail (k-th CasByVersion each)
 	Phase time.Duration `json:"phase,omitempty"`     // S3: death phase within the renewal cycle; S4: hold time
 	Re    string        `json:"reacquire,omitempty"` // S4: "", "same", "other"
 	Seed  int64         `json:"seed"`
@@ -324,6 +325,9 @@ func holdScenario(sc scen, hold time.Duration) []finding {
 	defer pC2.Shutdown()
 	if sc.Kind == "S2" {
 		tH.failCas[sc.K] = true
+		for _, k := range sc.Ks {
+			tH.failCas[k] = true
+		}
 	}
 	h, c1, c2 := pH.NewLocker("x"), pC.NewLocker("x"), pC2.NewLocker("x")
 	var out []finding
@@ -356,6 +360,35 @@ func holdScenario(sc scen, hold time.Duration) []finding {
 			time.Sleep(L / 10)
 		}
 	}()
+	lstop := make(chan struct{})
+	var lwg sync.WaitGroup
+	lwg.Add(1)
+	go func() { // goroutines of the holder's own process trying the SAME Locker object: they must not disturb the tenure
+		defer lwg.Done()
+		for i := 0; ; i++ {
+			select {
+			case <-lstop:
+				return
+			default:
+			}
+			if i%2 == 0 {
+				if h.TryLock(context.Background()) {
+					add(finding{sig: "lease/local-trylock-on-held-locker-succeeded", what: fmt.Sprintf("%s L=%v: TryLock on the Locker object that is currently held returned true", sc.Kind, L), w: sc})
+					return
+				}
+			} else {
+				lctx, lcancel := context.WithTimeout(context.Background(), L/20)
+				err := h.LockWithCtx(lctx)
+				lcancel()
+				if err == nil {
+					add(finding{sig: "lease/local-lockwithctx-on-held-locker-succeeded", what: fmt.Sprintf("%s L=%v: LockWithCtx on the Locker object that is currently held returned nil", sc.Kind, L), w: sc})
+					h.Unlock()
+					return
+				}
+			}
+			time.Sleep(L / 7)
+		}
+	}()
 	c2Got := make(chan bool, 1)
 	c2Release := make(chan struct{})
 	go func() { // contender parked in LockWithCtx; it takes over after the holder and then holds itself
@@ -385,6 +418,8 @@ func holdScenario(sc scen, hold time.Duration) []finding {
 		missing = time.Since(e.base)
 	}
 	end := time.Since(e.base)
+	close(lstop)
+	lwg.Wait() // the local contender is gone before the holder releases (afterwards it could legitimately acquire)
 	close(stop)
 	holders.Add(-1)
 	h.Unlock()
@@ -603,8 +638,19 @@ func inflightScenario(sc scen) []finding {
 		h.Unlock()
 		return []finding{{sig: "harness/S5-renewal-not-reached", what: fmt.Sprintf("renewal %d never happened", sc.K), timeBound: true, w: sc}}
 	}
-	// renewal k has been applied, its answer is in flight: end the tenure and start the next one on the same Locker
+	// renewal k has been applied, its answer is in flight: end the tenure and start the next one
 	h.Unlock()
+	if sc.Re == "otherholds" {
+		// the next tenure belongs to a Locker of another provider; the first Locker stays unlocked
+		tO, pO := e.provider(L)
+		defer pO.Shutdown()
+		o := pO.NewLocker("x")
+		o.Lock()
+		close(tH.release) // the late answer of the finished tenure's renewal arrives while somebody else holds
+		out = append(out, guardTenure(e, sc, tO, spin, 3*L, "S5-foreign-tenure-after-inflight-renewal")...)
+		o.Unlock()
+		return out
+	}
 	if sc.Re == "other" {
 		// variant: somebody else holds in between for a moment
 		if spin.TryLock(context.Background()) {
@@ -627,7 +673,13 @@ func runScenario(sc scen) []finding {
 		s.Kind = "S1"
 		return holdScenario(s, 20*sc.L)
 	case "S2":
-		return holdScenario(sc, time.Duration(sc.K/2+4)*sc.L)
+		last := sc.K
+		for _, k := range sc.Ks {
+			if k > last {
+				last = k
+			}
+		}
+		return holdScenario(sc, time.Duration(last/2+4)*sc.L)
 	case "S3":
 		return deathScenario(sc)
 	case "S4":
@@ -641,7 +693,7 @@ func runScenario(sc scen) []finding {
 func TestCheck(t *testing.T) {
 	run := report.New("C05", "fault_enumeration")
 	defer run.Finish(t)
-	run.Rule("real-clock scenarios with lease L set through a hook, one storage tap per provider: S1 hold for 6 L (20 L thorough) with a TryLock-spinning and a parked contender; S2 the k-th renewal CAS answered by an injected error without executing, for every k<=K; S3 the holder's storage access dies at a phase of the renewal cycle and a parked contender must take over after the last lease ran out; S5 the answer of the k-th renewal is still in flight (applied by the storage) when the holder unlocks and the same Locker locks again, then the late answer arrives: the new tenure is held 3 L under the monitors; the order invariant of the timer queue (hook) is sampled throughout; S4 Unlock after hold times around multiples of L/2 with renewals delayed 0-5 ms (Unlock racing a renewal), then nothing / re-acquisition by the same / another Locker. In S1-S3 the caller that takes over after waiting holds for 3 L under the same monitors (its first lease must be a full one). Monitors over the tap log and probes of the record: exclusion, lease gap (each renewal completes before the lease it renews runs out), record present while held, renewal chain survives a transient error, take-over never before and at most L+2 s after the last lease ran out, at most one failing stale renewal after Unlock. distinct = distinct (scenario kind, L, k / phase / re-acquisition) instances run")
+	run.Rule("real-clock scenarios with lease L set through a hook, one storage tap per provider: S1 hold for 6 L (20 L thorough) with a TryLock-spinning and a parked contender; S2 the k-th renewal CAS answered by an injected error without executing, for every k<=K, and sets of several failing calls in one tenure ({1,3,5}, {2,4,6}, {1,3,5,7}, {1,2}, {3,4}); during S1/S2 goroutines of the holder's process keep trying TryLock / LockWithCtx on the SAME (held) Locker object; S3 the holder's storage access dies at a phase of the renewal cycle and a parked contender must take over after the last lease ran out; S5 the answer of the k-th renewal is still in flight (applied by the storage) when the holder unlocks and the same Locker locks again, then the late answer arrives (variants: same Locker locks again / another provider's Locker holds next): the new tenure is held 3 L under the monitors; the order invariant of the timer queue (hook) is sampled throughout; S4 Unlock after hold times around multiples of L/2 with renewals delayed 0-5 ms (Unlock racing a renewal), then nothing / re-acquisition by the same / another Locker. In S1-S3 the caller that takes over after waiting holds for 3 L under the same monitors (its first lease must be a full one). Monitors over the tap log and probes of the record: exclusion, lease gap (each renewal completes before the lease it renews runs out), record present while held, renewal chain survives a transient error, take-over never before and at most L+2 s after the last lease ran out, at most one failing stale renewal after Unlock. distinct = distinct (scenario kind, L, k / phase / re-acquisition) instances run")
 	run.Assume("two-sided time bounds are guarded by a stall canary: a bound broken while the canary saw a stall above L/8 is repeated (up to 3 times) and only a repeat without stall counts")
 	run.Assume("a transient renewal failure is an attempt that was not applied (request lost); unacknowledged but applied renewals are not generated")
 
@@ -664,11 +716,15 @@ func TestCheck(t *testing.T) {
 		for k := 1; k <= K; k++ {
 			list = append(list, scen{Kind: "S2", L: L, K: k})
 		}
+		// several transient failures within one tenure, each followed by a successful retry (and two in a row)
+		for _, ks := range [][]int{{1, 3, 5}, {2, 4, 6}, {1, 3, 5, 7}, {1, 2}, {3, 4}} {
+			list = append(list, scen{Kind: "S2", L: L, K: ks[0], Ks: ks})
+		}
 		for i := 0; i < run.Pick(12, 24); i++ {
 			list = append(list, scen{Kind: "S3", L: L, Phase: time.Duration(rng.Int63n(int64(L)))})
 		}
 		for k := 1; k <= run.Pick(3, 6); k++ {
-			list = append(list, scen{Kind: "S5", L: L, K: k}, scen{Kind: "S5", L: L, K: k, Re: "other"})
+			list = append(list, scen{Kind: "S5", L: L, K: k}, scen{Kind: "S5", L: L, K: k, Re: "other"}, scen{Kind: "S5", L: L, K: k, Re: "otherholds"})
 		}
 		for i := 0; i < run.Pick(45, 120); i++ {
 			mult := 1 + rng.Intn(4)
